@@ -16,6 +16,7 @@ Template directives (lines whose first non-blank characters are `//@`):
     //@head{ ... //@}                       clauses between signature and body
     //@start{ ... //@}                      ghost text at the start of the body
     //@loop <n>{ ... //@}                   clauses between the n-th loop header and its body
+    //@forbid <ident>                       syntactic frame: the function text must not mention <ident> (else: undecided)
     //@loopbody <n>{ ... //@}               ghost text at the start of the body of the n-th loop
     //@loopend <n>{ ... //@}                ghost text at the end of the body of the n-th loop (order-insensitive placement)
     //@before <k> <anchor>{ ... //@}        ghost text before the statement containing the k-th
@@ -56,6 +57,7 @@ class Ctx:
         self.items = []    # (file, kind, name, sha256 of verbatim text, first line)
         self.cur = ('', '')
         self.lost_anchors = []
+        self.loop_locals = {}   # 'fn#loop' -> immutable locals bound before an annotated loop, used in its body, absent from its invariant
 
     def note(self, rule, before, after):
         self.applied.append({'rule': rule, 'file': self.cur[0], 'item': self.cur[1],
@@ -834,6 +836,8 @@ class FnSpec:
         self.loops = {}
         self.loopiters = {}
         self.loopbodies = {}
+        self.forbid = []
+        self.loopattrs = {}
         self.loopends = {}
         self.anchors = []   # (where, k, anchor, text)
         self.closures = []  # (k, orig, new, text)
@@ -876,6 +880,9 @@ def apply_fn(text, spec, ctx, assoc_types=None, canary=False):
     """text: verbatim fn item. Returns rewritten+spliced text."""
     text = strip_attrs_and_docs(text, ctx)
     text = strip_pub(text, ctx)
+    for tok in spec.forbid:
+        if any(t.kind == 'ident' and t.text == tok for t in L.code_toks(text)):
+            raise ExtractError('frame: fn %s mentions `%s`, which its contract says it does not depend on' % (spec.name, tok))
     if assoc_types:
         for k, v in assoc_types.items():
             if ('Self::' + k) in text:
@@ -996,6 +1003,26 @@ def apply_fn(text, spec, ctx, assoc_types=None, canary=False):
         ins.append((s if where == 'before' else e, HINT_BEGIN + '\n' + gtext + '\n' + HINT_END))
     # loops
     loops = L.find_loops(text)
+    # bookkeeping for isolated loops: an immutable local that is bound before the loop, read inside it and not mentioned by its
+    # invariant is invisible to the loop's proof (Verus verifies loop bodies from the invariant alone).  vrun compares this set with
+    # the one recorded for the pinned tree (contracts/LOOP_LOCALS.json): a NEW such local (a hoisted expression) makes a failure of
+    # that function "undecided" instead of a violation.
+    if spec.loops and 'loop_isolation(false)' not in ''.join(spec.pre):
+        ltoks = L.code_toks(text)
+        for n, gtext in spec.loops.items():
+            if n < 1 or n > len(loops):
+                continue
+            kw, br = loops[n - 1]
+            oi = [i for i, t in enumerate(ltoks) if t.s == br]
+            if not oi:
+                continue
+            ci = L.match_close(ltoks, oi[0])
+            body_ids = {t.text for t in ltoks[oi[0]:ci] if t.kind == 'ident'}
+            hdr_ids = {t.text for t in ltoks if t.kind == 'ident' and kw <= t.s < br}
+            inv_ids = set(re.findall(r'[A-Za-z_]\w*', gtext))
+            outer = set(re.findall(r'\blet\s+(?!mut\b)([a-z_]\w*)\s*(?::[^=;]*)?=', text[:kw]))
+            free = sorted((outer & (body_ids | hdr_ids)) - inv_ids)
+            ctx.loop_locals['%s#%d' % (spec.name, n)] = free
     for n, nm in spec.loopiters.items():
         if n < 1 or n > len(loops):
             raise ExtractError('fn %s: loopiter %d: function has %d loops' % (spec.name, n, len(loops)))
@@ -1013,6 +1040,11 @@ def apply_fn(text, spec, ctx, assoc_types=None, canary=False):
         ins = [(p + delta if p > kw else p, g) for (p, g) in ins]
         loops = L.find_loops(text)
         ctx.note('R15', 'for %s in EXPR' % m.group(1), repl + 'EXPR  (named ghost iterator)')
+    attr_ins = []
+    for n, txt in spec.loopattrs.items():
+        if n < 1 or n > len(loops):
+            raise ExtractError('fn %s: loopattr %d requested, function has %d loops' % (spec.name, n, len(loops)))
+        attr_ins.append((loops[n - 1][0], txt))
     for n, gtext in spec.loops.items():
         if n < 1 or n > len(loops):
             raise ExtractError('fn %s: loop %d requested, function has %d loops' % (spec.name, n, len(loops)))
@@ -1043,6 +1075,8 @@ def apply_fn(text, spec, ctx, assoc_types=None, canary=False):
         ins.append((body + 1, 'proof { assert(false); }'))
     if spec.head:
         ins.append((body, '\n'.join(spec.head) + '\n'))
+    # attributes of a loop go directly in front of its keyword: at equal positions they are inserted first
+    ins = attr_ins + ins
     ins.sort(key=lambda x: -x[0])
     for pos, gtext in ins:
         text = text[:pos] + '\n' + gtext + '\n' + text[pos:]
@@ -1122,6 +1156,15 @@ def parse_fn_directives(lines, i, spec):
             m = re.match(r'loopend (\d+)\{$', d)
             t, i = parse_block(lines, i)
             spec.loopends[int(m.group(1))] = t
+        elif d.startswith('loopattr '):
+            # //@loopattr N TEXT : TEXT (an attribute) is put in front of the n-th loop statement
+            _, nn, txt = d.split(None, 2)
+            spec.loopattrs[int(nn)] = txt
+            i += 1
+        elif d.startswith('forbid '):
+            # syntactic frame: the function must not mention this identifier (otherwise the unit is undecided)
+            spec.forbid.append(d[len('forbid '):].strip())
+            i += 1
         elif d.startswith('loopbody '):
             m = re.match(r'loopbody (\d+)\{$', d)
             t, i = parse_block(lines, i)
@@ -1397,7 +1440,7 @@ def process_template(unit, tpl_path=None, canary=False):
             continue
         raise ExtractError('unknown directive: ' + s)
     text = '\n'.join(out)
-    return text, {'functions': fns, 'rewrites': ctx.applied, 'items': ctx.items, 'unannotated_loops': unannot, 'lost_anchors': ctx.lost_anchors}
+    return text, {'functions': fns, 'rewrites': ctx.applied, 'items': ctx.items, 'unannotated_loops': unannot, 'lost_anchors': ctx.lost_anchors, 'loop_locals': ctx.loop_locals}
 
 
 def main(argv):
